@@ -762,8 +762,10 @@ class SourceHandler:
                 return
             self._params.positive_ack_params.ack_timer.reset()
             self._params.positive_ack_params.ack_counter += 1
+            # The re-sent EOF PDU must be identical to the first one: an EOF (cancel) PDU covers
+            # the file data sent so far, which is the whole file for a regular EOF PDU.
             self._prepare_eof_pdu(
-                self._checksum_calculation(self._params.fp.file_size),
+                self._checksum_calculation(self._params.fp.progress),
             )
 
     def _handle_wait_for_finish(self, packet_holder: PduHolder) -> None:
